@@ -71,6 +71,12 @@ impl PhoneticSuggestion {
         }
     }
 
+    /// Forget the cached dictionary searches. They embed the auto-correct
+    /// entries which were in effect when they were made.
+    pub(crate) fn clear_cache(&mut self) {
+        self.cache.clear();
+    }
+
     /// Add suffix(গুলো, মালা, etc.) to the dictionary suggestions and return them.
     ///
     /// This function gets the suggestion list from the stored cache.
